@@ -164,7 +164,11 @@ func TestLiveFiring(t *testing.T) {
 					if !j.present {
 						continue
 					}
-					switch rapid.IntRange(0, 7).Draw(t, "state2") {
+					st2 := rapid.IntRange(0, 7).Draw(t, "state2")
+					if !j.enabled && st2 >= 4 {
+						st2 = 1 // a job that sat out the first boundary disabled is often switched on again
+					}
+					switch st2 {
 					case 0:
 						cron.DisableJob(j.name)
 						j.enabled, j.touched = false, true
